@@ -242,6 +242,7 @@ type storeWorld struct {
 	putsOK, putsFailed                    int
 	integritySignals                      int
 	tolerateIntegrity                     bool // C08 runs corrupt the medium on purpose
+	tolerateIOErrors                      bool // runs that inject device/allocation failures
 
 	// hooks
 	onGetDone  func(op *storeOp, res int, invokeAlloc int)
@@ -371,6 +372,9 @@ func (w *storeWorld) doPut(op *storeOp) {
 			ok := code == codes.Unavailable ||
 				(code == codes.Internal && (strings.Contains(msg, "already been released") || strings.Contains(msg, "Existing object disappeared"))) ||
 				(code == codes.InvalidArgument && strings.Contains(msg, "only capable of storing blobs"))
+			if !ok && w.tolerateIOErrors && strings.Contains(msg, "injected") {
+				ok = true
+			}
 			if !ok && !w.tolerateIntegrity {
 				w.c.Fail("valid-upload-rejected", "%s with valid data failed with %v", op, err)
 			}
